@@ -194,7 +194,11 @@ def gen_history(rnd, cfg, mode, nsteps):
             sh.name_op(rnd.choice(live))
         elif kind == "tick":
             nticks += 1
-            sh.ev.append("T.%d" % (rnd.choice((TICK_PART, TICK_PART, TICK_FULL)) if timed else 40))
+            d = rnd.choice((TICK_PART, TICK_PART, TICK_FULL)) if timed else 40
+            sh.ev.append("T.%d" % d)
+            if timed and d == TICK_FULL:          # everything outstanding has expired: later replies are late replies
+                sh.done += sh.out
+                sh.out = []
     return sh.ev
 
 
@@ -249,3 +253,19 @@ def scenarios():
         S.append(("name-replace", (R, 5, -1), ["C0", "C0", "C0", "R.1.20.1.1", "R.2.21.1.3", call(0, "n1", 7, 1), "R.1.22.1.6", call(0, "n1", 8, 2),
                                                "R.1.23.1.2", "D.2", call(0, "n1", 9, 3), "S.0.s.0.0.4.0.n1.0.4", "S.0.e.0.0.5.3.n1.0.5"]))
     return S
+
+
+def enum_cases(depth, restrictive=1, maxrep=2):
+    """every sequence of `depth` events from a small alphabet after three connects: all orders of call / reply / forged
+    reply / duplicate / disconnect around one or two outstanding calls"""
+    import itertools
+    alpha = ["S.0.c.0.0.7.0.u1.0.%d", "S.0.c.1.0.7.0.u1.0.%d", "S.0.c.0.0.7.0.u2.0.%d", "S.0.c.0.0.8.0.u1.0.%d",
+             "S.1.r.0.0.1.7.u0.0.%d", "S.2.e.0.0.1.7.u0.0.%d", "S.1.r.0.0.1.7.u2.0.%d", "S.1.e.0.0.1.8.u0.0.%d",
+             "S.1.c.0.0.7.0.u0.0.%d", "S.0.r.0.0.2.7.u1.0.%d", "D.1", "D.0"]
+    out = []
+    for seq in itertools.product(range(len(alpha)), repeat=depth):
+        ev = ["C0", "C0", "C0"]
+        for i, k in enumerate(seq):
+            ev.append(alpha[k] % (i + 1) if "%d" in alpha[k] else alpha[k])
+        out.append(("enum", (restrictive, maxrep, -1), ev))
+    return out
